@@ -6,7 +6,7 @@
    The per-protocol send->receive round trips are theorems about the packet models of Model.v
    (sender's datagram = what the node passes to sendto; receiver = node with one registered handler). *)
 From OlaBase Require Import Bytes.
-From C07 Require Import Gen Model ModelNet2 ModelStream ModelMulti ModelHist ListLemmas RleProofs RleMore NetProofs NetProofs2 StreamProofs MultiProofs HistProofs.
+From C07 Require Import Gen Model ModelNet2 ModelStream ModelMulti ModelHist ModelExt ListLemmas RleProofs RleMore NetProofs NetProofs2 StreamProofs MultiProofs HistProofs ExtProofs StreamProofs2 ExtProofs2.
 Local Open Scope N_scope.
 
 (* the constants the statements below spell out as literals *)
@@ -201,6 +201,98 @@ Theorem c07_e131_stream_priorities : forall cid name u ip tprio fs1 fs2 old,
 Proof. exact stream_priorities. Qed.
 Print Assumptions c07_e131_stream_priorities.
 
+(* ===== extension round ===== *)
+(* further regenerated constants that the models spell as literals *)
+Theorem c07_consts2 :
+  (DMP_VIRTUAL_MASK, DMP_RELATIVE_MASK, DMP_TYPE_MASK, DMP_SIZE_MASK, DMP_ADDR_HEADER) = (128, 64, 48, 3, 161) /\
+  (SA_OP_DMX, SA_OP_COMPRESSED_DMX, SA_COMPRESSED_HEADER_SIZE, AN_NODE_TIMEOUT, E131_SEQ_DIFF_NEG,
+   E131_MAX_PRIORITY) = (768, 2560, 10, 31, 20, 200) /\
+  (ACN_VFLAG, ACN_HFLAG, ACN_DFLAG, ACN_LFLAG, ACN_LENGTH_MASK) = (64, 32, 16, 128, 15).
+Proof. repeat split; reflexivity. Qed.
+Print Assumptions c07_consts2.
+
+(* Partial-universe protocols, history level: after ANY sequence of frames (each 1-512 slots, any
+   packet counters) sent to one universe and delivered in order, the receiver's buffer is the frames
+   written one after the other at offset 0 over what was there ... *)
+Theorem c07_shownet_history : forall ip name u fs b,
+  u < 8 -> Forall (fun sf => 1 <= len (snd sf) /\ len (snd sf) <= 512) fs ->
+  shownet_history ip name u fs b = Some (overlay_all fs b).
+Proof. intros. apply shownet_history_ok; assumption. Qed.
+Print Assumptions c07_shownet_history.
+
+Theorem c07_pathport_history : forall dev u fs b,
+  u <= 127 -> Forall (fun sf => 1 <= len (snd sf) /\ len (snd sf) <= 512) fs ->
+  pathport_history dev u fs b = Some (overlay_all fs b).
+Proof. intros. apply pathport_history_ok; assumption. Qed.
+Print Assumptions c07_pathport_history.
+
+(* ... which slot by slot means: slot i holds the value of the LAST frame of the history that was
+   long enough to cover it, and its old value (0 for a receiver that had no data) if no frame
+   reached it: shorter later frames leave the remaining slots untouched. *)
+Theorem c07_partial_slotwise : forall fs b i,
+  get (materialise (overlay_all fs b)) i =
+  match last_cover i fs None with Some v => v | None => get (materialise b) i end.
+Proof. exact overlay_all_slot. Qed.
+Print Assumptions c07_partial_slotwise.
+
+(* E1.31, BOTH framing revisions, most general sender history: one sender, any interleaving of sends
+   over any universes 1..65534, each send with its own priority 0..200 and a frame of 0-512 slots;
+   the handler of universe hu observes exactly the frames sent to hu (handler ran, buffer = frame,
+   also for an empty frame) and is untouched by everything else.  Subsumes c07_e131_multi_universe
+   and the data part of c07_e131_stream_priorities, and extends them to revision 2. *)
+Theorem c07_e131_any_history : forall rev2 cid name hu ip ops old,
+  Forall (fun op : hop => let '(u, prio, f) := op in
+            1 <= u /\ u <= 65534 /\ prio <= 200 /\ len f <= 512) ops ->
+  exists m' st', send_hist rev2 cid name hu ip ops [] (fresh_rx old) = (expect_hist hu ops old, m', st').
+Proof. intros. apply any_history; assumption. Qed.
+Print Assumptions c07_e131_any_history.
+
+(* SandNet compressed DMX (a packet type OLA receives but never sends): a datagram carrying the
+   output of the run-length encoder for a frame (any capacity that holds it) is decoded to the frame
+   over the receiver's previous contents, whatever the eight header bytes after group/universe are. *)
+Theorem c07_sandnet_compressed_receive : forall g u hdr8 f cap old,
+  1 <= len f -> len f <= 512 -> g < 256 -> u < 256 -> len hdr8 = 8 ->
+  cap < 2^32 -> 2 * len f + 2 <= cap ->
+  exists bytes, rle_encode f cap = EOk bytes true (len bytes) /\
+    sandnet_handle_compressed (be16 SA_OP_COMPRESSED_DMX ++ [g; u] ++ hdr8 ++ bytes) g u old
+      = CHandled (Some (f ++ drop (len f) (materialise old))).
+Proof. exact sandnet_compressed_rx. Qed.
+Print Assumptions c07_sandnet_compressed_receive.
+
+(* Addressing: a datagram reaches the handler of its own address and no other, for every pair of
+   sender address and handler address (ShowNet, SandNet, ESP Net, Pathport; Art-Net: c07_artnet_ports,
+   E1.31: c07_e131_any_history). *)
+Theorem c07_addressing : forall ip name seq dev g u hg hu port f old,
+  1 <= len f -> len f <= 512 ->
+  (u < 8 -> exists p, shownet_build ip name seq u f = Some p /\
+              shownet_handle p hu old = if u =? hu then RHandled (expect_overlay 0 f old) else RDropped) /\
+  (g < 256 -> u < 256 ->
+     sandnet_handle (sandnet_build g u port f) hg hu old =
+       if (g =? hg) && (u =? hu) then RHandled (Some f) else RDropped) /\
+  (u < 256 -> espnet_handle (espnet_build u f) hu old = if u =? hu then RHandled (Some f) else RDropped) /\
+  (u <= 127 -> pathport_handle (pathport_build dev seq u f) dev hu old =
+                 if u =? hu then RHandled (expect_overlay 0 f old) else RDropped).
+Proof.
+  intros. repeat split; intros.
+  - apply shownet_roundtrip_gen; assumption.
+  - apply sandnet_roundtrip_gen; assumption.
+  - apply espnet_roundtrip_gen; assumption.
+  - apply pathport_roundtrip_gen; assumption.
+Qed.
+Print Assumptions c07_addressing.
+
+(* Empty frames: Art-Net does not send them; ESP Net delivers them as an empty buffer (E1.31: see
+   c07_e131_any_history; ShowNet, SandNet and Pathport receivers ignore a datagram without slots:
+   correspondence-tested). *)
+Theorem c07_empty_frames : forall seq phys addr net u old,
+  artnet_build seq phys addr net [] = None /\
+  (u < 256 -> espnet_handle (espnet_build u []) u old = RHandled (Some [])).
+Proof.
+  intros. split; [reflexivity|]. intros Hu.
+  rewrite (espnet_roundtrip_gen u u [] old) by (cbn; lia || exact Hu). rewrite N.eqb_refl. reflexivity.
+Qed.
+Print Assumptions c07_empty_frames.
+
 (* ---- non-vacuity and the pre-fix failures as concrete evaluations of the (fixed) model *)
 Definition ramp (n : nat) : list N := map (fun i => N.of_nat ((i * 7 + 3) mod 256)) (seq 0 n).
 (* 128 distinct slots: the unfixed encoder emitted the count byte 0x80 here *)
@@ -265,3 +357,12 @@ Example ex_unicast :
   an_run false 0 0x12 3 [AReply 0; ASend 10 [1; 2]; ASend 40 [3; 4]] (None, 0) None
     = [None; Some (true, Some [1; 2]); Some (false, Some [1; 2])].
 Proof. split; [cbn [replies_cover len length]; unfold AN_NODE_TIMEOUT, len; cbn [length]; repeat split; lia|vm_compute; reflexivity]. Qed.
+Example ex_partial_history :
+  shownet_history [10;0;0;1] [] 2 [(0, [1;2;3;4;5]); (1, [9;9])] None = Some (Some ([9;9;3;4;5] ++ zeros 507)) /\
+  last_cover 3 [(0, [1;2;3;4;5]); (1, [9;9])] None = Some 4.
+Proof. vm_compute. split; reflexivity. Qed.
+Example ex_hist_rev2 :
+  match send_hist true (repeat 1 16) [] 5 true [(5, 100, [1; 2]); (6, 100, [7]); (5, 10, []); (5, 200, [3])] [] (fresh_rx None) with
+  | (obs, _, _) => obs = [(true, Some [1; 2]); (false, Some [1; 2]); (true, Some []); (true, Some [3])]
+  end.
+Proof. vm_compute. reflexivity. Qed.
